@@ -28,7 +28,8 @@ RULE = ("local backend; seeded history of 0-3 commits (treated as fully durable)
         "the pointer parses and names version V, the independent reader reaches every file of V with full content "
         "(equal to the volatile bytes); at each acknowledgement the pessimistic image names the acknowledged version. "
         "Sampled images are materialised and opened with the real load_table().scan(). One evaluation = one image. "
-        "Non-trivial = the image differs from both the initial and the final volatile state.")
+        "Non-trivial = the image differs from both the initial and the final volatile state. Pre-built files are also handed over too early "
+        "(missing / half written: append_files raises, the caller finishes the file and calls again on the same transaction).")
 ASSUMPTIONS = common.BASE_ASSUMPTIONS + [
     "power-loss model: un-synced file content and un-synced directory operations may or may not persist; mkdir is durable; "
     "no filesystem-specific reordering beyond that",
